@@ -1,8 +1,20 @@
 """Input generators shared by the property checks (all randomness from the rng passed in)."""
 import math
+import os
 from fractions import Fraction as Fr
 
 from vlib import next_up, next_down
+
+# effort multiplier of the quick tier (check.py raises it when /repo/src differs from the tree the model was validated on)
+SCALE = float(os.environ.get("VERIF_SCALE", "1"))
+
+
+def N(tier, q, t):
+    """number of cases of a family: q (times SCALE, at most t) in the quick tier, t in the thorough tier"""
+    if tier != "quick":
+        return t
+    return max(q, min(t, int(q * SCALE)))
+
 
 AXIS_KINDS_Q = ["unit", "uniform", "geometric", "clustered", "random", "dyadic", "mesh64", "evenish"]
 
